@@ -458,6 +458,7 @@ class App:
         if kind != "write-empty":
             self.start_response()
         sim.event("app-write-nothing", self.k, kind)
+        self.nothings = getattr(self, "nothings", 0) + 1     # pacing of settle() only: an answer that carries no data is still an answer
         sim.probe("write_nothing_" + kind.replace("-", "_"))
         led = self.h.ledger.st.get(self.sid)
         if led is not None and self.pos == led["sent"] and self.h.ledger.eff(led) > 0:
@@ -1200,7 +1201,10 @@ class Harness:
             return ()
 
     def progress_mark(self):
-        return tuple((a.pos, a.finished, a.registered) for a in self.apps)
+        # `nothings`: a pulled producer that answers with a write of no data has not been paused - the cooperator will ask it again;
+        # without it, ten such answers in a row (seen once in 40000 thorough runs) used up settle()'s patience and the resumption
+        # oracle took a producer that was being pulled all along for one that had been paused and never resumed
+        return tuple((a.pos, a.finished, a.registered, getattr(a, "nothings", 0)) for a in self.apps)
 
     def check_resumed(self):
         sim = self.sim
